@@ -1,5 +1,10 @@
 From Coq Require Extraction.
 From Coq Require Import ExtrOcamlBasic.
-From RM Require Import C09.Driver.
+From RM Require Import C08.Model C11.Model C09.Driver C09.Grammar.
 Extraction "c09_model.ml" run_case o_kind o_code o_line o_cb o_ncb o_nrd o_maxsp o_cap
-  o_files o_origins o_publics o_url o_dropped o_skind o_scode o_sline.
+  o_table o_dropped o_skind o_scode o_sline o_stable
+  t_module_id t_debug_file t_files t_origins t_publics t_funcs t_cfi t_win_fd t_win_fpo t_url
+  pb_addr pb_name pb_psize sf_addr sf_size sf_psize sf_name sf_lines sf_inls
+  l_addr l_size l_file l_line i_depth i_addr i_size i_cfile i_cline i_origin
+  cr_addr cr_rules sc_init sc_size sc_add
+  wi_addr wi_size wi_prolog wi_epilog wi_params wi_saved wi_locals wi_maxstack wi_thing.
